@@ -51,6 +51,25 @@ def case_cuts(arg):
                     signal.setitimer(signal.ITIMER_REAL, 0)
                 except Hang:
                     signal.setitimer(signal.ITIMER_REAL, 0)
+            # the public reader (pncopen(format='bpch')): it tries bpch1 and
+            # falls back to the block-walking reader when that raises
+            o['wk'], o['wexc'], o['wgot'] = 'Err', '', c18.EMPTY
+            signal.setitimer(signal.ITIMER_REAL, 20.0)
+            try:
+                from PseudoNetCDF.geoschemfiles import bpch as bpchw
+                f = bpchw(path, noscale=True)
+                o['wgot'] = c18.present(f, cfg)
+                o['wk'] = 'Steps'
+                del f
+            except Hang:
+                o['wk'] = 'Hang'
+            except Exception as ex:
+                o['wexc'] = type(ex).__name__
+            finally:
+                try:
+                    signal.setitimer(signal.ITIMER_REAL, 0)
+                except Hang:
+                    signal.setitimer(signal.ITIMER_REAL, 0)
             obs.append(o)
             os.remove(path)
         return {'tid': tid, 'kind': 'cuts', 'cfg': cfg, 'nbytes': len(data),
@@ -82,8 +101,12 @@ def run_bpch_cuts(out, tier, rnd):
         else:
             # every tracer-block boundary of the first block, every block
             # boundary (+-1, +-4, + header) and a sample of the rest
-            marks = list(it['pos']) + [136 + k * it['block']
-                                       for k in range(0, it['cfg']['nt'] + 1)]
+            # (also the tracer-block boundaries inside the later blocks)
+            marks = [136 + k * it['block'] + (q - 136)
+                     for k in range(0, it['cfg']['nt'])
+                     for q in it['pos']] + \
+                [136 + k * it['block']
+                 for k in range(0, it['cfg']['nt'] + 1)]
             cuts = set()
             for m in marks:
                 for d in (-4, -1, 0, 1, 4, 219, 220, 221):
